@@ -3,7 +3,7 @@
 id=$1; dir=$2; prop=${3:-$id}
 cd /verif
 git -C /repo apply $dir/patch.diff || { echo "cannot apply to /repo"; exit 7; }
-bin/check $prop > $dir/verify_check.log 2>&1; c=$?
+SA_EVIDENCE_DIR=$(mktemp -d /tmp/seed_ev_XXXX) bin/check $prop > $dir/verify_check.log 2>&1; c=$?
 git -C /repo checkout -- .
 echo "seed $id: check $prop exit=$c"
 grep "^  R-\|VIOLATION\|ANALYSIS" $dir/verify_check.log | cut -c1-300 | head -6
